@@ -186,6 +186,11 @@ func (x *Exec) specIdent(s *State, name string, sc *specCtx) *Value {
 	case "ONE":
 		return intV(ONE)
 	}
+	if strings.HasPrefix(name, "result") && len(name) == 7 && name[6] >= '0' && name[6] <= '9' {
+		if i := int(name[6] - '0'); i < len(sc.results) {
+			return sc.results[i]
+		}
+	}
 	for i, n := range sc.resName {
 		if n == name && i < len(sc.results) {
 			return sc.results[i]
